@@ -25,7 +25,8 @@ GATES = ("nontrivial", "outcome.status:Optimal", "outcome.status:LocallyInfeasib
 def generate(rng, seed, index, tier):
     fam = str(rng.choice(["qp", "nlp", "infeasible", "unbounded", "degenerate", "domain", "zero-cons", "saddle"], p=[0.17, 0.17, 0.13, 0.13, 0.13, 0.05, 0.1, 0.12]))
     spec, x0, y0 = gen.gen_problem(rng, fam, fixed_prob=0.4)
-    kw = gen.gen_params(rng, spec, x0, y0, p_knob=0.6, reporting=True)
+    x0, y0, sform = gen.start_forms(rng, spec, x0, y0, p=0.1)
+    kw = gen.gen_params(rng, spec, x0, y0, p_knob=0.6, reporting=True, numeric=0.3)
     kw["iteration_limit"] = int(rng.choice([5, 50, 300, 1000], p=[0.15, 0.45, 0.25, 0.15]))
     if rng.random() < 0.2:
         kw["time_limit"] = float(rng.choice([0.05, 0.5, 5.0]))
@@ -44,7 +45,7 @@ def generate(rng, seed, index, tier):
     if rng.random() < 0.1:
         kw["lamb_inc"] = float(rng.choice([1.5, 4.0]))
     kw["display_interval"] = {"none": None, "zero": 0.0, "0.1": 0.1, "huge": 1e18}[str(rng.choice(["none", "zero", "0.1", "huge"], p=[0.15, 0.2, 0.45, 0.2]))]
-    return gen.base_world(seed, ID, index, spec, x0, y0, kw, clock=gen.gen_clock(rng, n=1500), obs=gen.gen_obs(rng))
+    return gen.base_world(seed, ID, index, spec, x0, y0, kw, clock=gen.gen_clock(rng, n=1500), obs=gen.gen_obs(rng), start_form=sform)
 
 
 def case(world):
